@@ -55,6 +55,10 @@ FORMS = {
     "reexport-chain2":        dict(pkg=False, style="name"),
     "reexport-chain3":        dict(pkg=False, style="name"),
     "reexport-star":          dict(pkg=False, style="name"),
+    # pkg/__init__: from .y import *  /  pkg/y.py: from .x import k   (star of a name the starred module itself imports)
+    "reexport-star-chain2":   dict(pkg=False, style="name"),
+    # pkg/sub/__init__: from ..x import k   (relative level 2 written inside a package __init__)
+    "reexport-init-level2":   dict(pkg=False, style="name"),
     "import-pkg-attr":        dict(pkg=False, style="prefix"),
     "pkg-submodule-imported": dict(pkg=False, style="prefix"),
 }
@@ -93,14 +97,20 @@ def base_program(rng):
                 e.calls.append(c.func.id)
         ents[node.name] = e
         order.append(node.name)
-    classes, tail = [], []
+    classes, tail, wrappers = [], [], []
     for i in range(rng.randint(1, 2)):
         k = f"K{i}"
         ents[k] = Entity(k, "class", f"class {k}:\n    def __init__(self, ka{i}):\n        self.kf{i} = ka{i}.kw{i}\n",
                          k, k, {f"kf{i}", f"kw{i}"})
-        c = Entity(f"ck{i}", "func", f"def ck{i}(pk{i}):\n    xk{i} = {k}(pk{i})\n    return xk{i}\n", f"ck{i}", f"ck{i}", set())
+        c = Entity(f"ck{i}", "func", f"def ck{i}(pk{i}):\n    pk{i}.ownck{i}\n    xk{i} = {k}(pk{i})\n    return xk{i}\n",
+                   f"ck{i}", f"ck{i}", {f"ownck{i}"})
         c.calls.append(k)
         ents[c.name] = c
+        if rng.random() < 0.6:      # a caller of the caller: ck{i} can be moved, with K{i} in its own module or elsewhere
+            w = Entity(f"cwk{i}", "func", f"def cwk{i}(pwk{i}):\n    ck{i}(pwk{i})\n", f"cwk{i}", f"cwk{i}", set())
+            w.calls.append(c.name)
+            ents[w.name] = w
+            wrappers.append(w.name)
         ents[k].assigned, ents[k].arg = f"xk{i}", f"pk{i}"
         classes.append(k)
         tail.append(c.name)
@@ -108,16 +118,22 @@ def base_program(rng):
         h = f"H{i}"
         ents[h] = Entity(h, "static", f"class {h}:\n    @staticmethod\n    def sm{i}(hz{i}):\n        return hz{i}.hs{i}\n",
                          f"{h}.sm{i}", h, {f"hs{i}"})
-        c = Entity(f"ch{i}", "func", f"def ch{i}(ph{i}):\n    {h}.sm{i}(ph{i})\n", f"ch{i}", f"ch{i}", set())
+        c = Entity(f"ch{i}", "func", f"def ch{i}(ph{i}):\n    ph{i}.ownch{i}\n    {h}.sm{i}(ph{i})\n", f"ch{i}", f"ch{i}",
+                   {f"ownch{i}"})
         c.calls.append(h)
         ents[c.name] = c
+        if rng.random() < 0.6:
+            w = Entity(f"cwh{i}", "func", f"def cwh{i}(pwh{i}):\n    ch{i}(pwh{i})\n", f"cwh{i}", f"cwh{i}", set())
+            w.calls.append(c.name)
+            ents[w.name] = w
+            wrappers.append(w.name)
         ents[h].arg = f"ph{i}"
         classes.append(h)
         tail.append(c.name)
     for e in ents.values():
         for c in e.calls:
             ents[c].caller = e.name
-    return ents, classes + order + tail
+    return ents, classes + order + tail + wrappers
 
 
 def respell(src, ent, spelled):
@@ -190,7 +206,8 @@ class Split:
         """Decide module + import form for moved callee v (its caller is already placed)."""
         e = self.ents[v]
         importer = self.loc[e.caller]
-        if importer != self.target_mod and self.rng.random() < 0.2:
+        # a class / static-method holder called from a followed module often lives in that same module
+        if importer != self.target_mod and self.rng.random() < (0.5 if e.kind != "func" else 0.2):
             self.loc[v] = importer
             self.modules[importer]["defs"].append(v)
             return
@@ -251,8 +268,21 @@ class Split:
             else:
                 self.imp(importer, f"from {dots}{last} import {k}", {"k": "rel", "level": level, "module": last, "name": k})
                 prefix = None
-        elif form in ("reexport-init", "reexport-chain2", "reexport-chain3", "reexport-star", "import-pkg-attr"):
-            chain = {"reexport-chain2": 2, "reexport-chain3": 3}.get(form, 1)
+        elif form == "reexport-init-level2":
+            chain = 1
+            pkg = self.fresh("zr")
+            self.ensure(pkg, True)
+            sub = f"{pkg}.{self.fresh('zq')}"
+            self.ensure(sub, True)
+            last = self.fresh("zx")
+            mod = f"{pkg}.{last}"
+            self.ensure(mod, False)
+            self.imp(sub, f"from ..{last} import {k}", {"k": "rel", "level": 2, "module": last, "name": k})
+            self.imp(importer, f"from {sub} import {k}", {"k": "from", "module": sub, "name": k})
+            prefix = None
+        elif form in ("reexport-init", "reexport-chain2", "reexport-chain3", "reexport-star", "reexport-star-chain2",
+                      "import-pkg-attr"):
+            chain = {"reexport-chain2": 2, "reexport-chain3": 3, "reexport-star-chain2": 2}.get(form, 1)
             pkg = self.fresh("zr")
             self.ensure(pkg, True)
             hops = [pkg] + [f"{pkg}.{self.fresh('zy')}" for _ in range(chain - 1)]
@@ -261,7 +291,7 @@ class Split:
             for i, h in enumerate(hops):
                 self.ensure(h, i == 0)
                 nxt = (hops[i + 1] if i + 1 < len(hops) else mod).rsplit(".", 1)[1]
-                if form == "reexport-star" and i == 0:
+                if form in ("reexport-star", "reexport-star-chain2") and i == 0:
                     self.imp(h, f"from .{nxt} import *", {"k": "relstar", "level": 1, "module": nxt})
                 else:
                     self.imp(h, f"from .{nxt} import {k}", {"k": "rel", "level": 1, "module": nxt, "name": k})
@@ -332,7 +362,8 @@ class Split:
         out = [l for l, _ in m["imports"]]
         if out:
             out.append("")
-        for n in m["defs"]:
+        # classes first, as in the single-file version (a static method resolves only if its class comes earlier)
+        for n in sorted(m["defs"], key=lambda n: self.ents[n].kind == "func"):
             src = self.ents[n].src
             for ed in by_caller.get(n, []):
                 src = respell(src, self.ents[ed.v], ed.spelled)
@@ -350,7 +381,7 @@ class Split:
         mods = []
         for mod, m in self.modules.items():
             decls = [dict(js) for _, js in m["imports"]]
-            for n in m["defs"]:
+            for n in sorted(m["defs"], key=lambda n: self.ents[n].kind == "func"):
                 e = self.ents[n]
                 members = [e.spelled.split(".", 1)[1]] if e.kind == "static" else []
                 decls.append({"k": "def", "name": e.import_name, "isClass": e.kind != "func", "members": members})
@@ -586,8 +617,9 @@ def run(tier, seed, build):
     res.rule = ("pairs (single-file program, split project) run through the real CLI; the split moves a downward-closed "
                 "random subset of the callees (functions, classes with __init__, classes with a static method) into "
                 "modules/packages of depth <= 3 and reaches each from its caller by an import form of the table "
-                "(every form x callee kind at least 5 (quick) / 30 (thorough) times, re-export chains up to 3, valid module "
-                "cycles, name cycles); oracle = equality of each remaining function's results entry with the single-file "
+                "(every form x callee kind at least 5 (quick) / 30 (thorough) times, re-export chains up to 3, star re-export of a name the starred module itself "
+                "imports, relative level 2 inside a package __init__, moved callers whose class / static-method callee lives in the "
+                "same followed module (chain depth >= 2), valid module cycles, name cycles); oracle = equality of each remaining function's results entry with the single-file "
                 "reference after mapping the callee spelling back. non-trivial = distinct (form, callee kind, module depth, "
                 "chain length) of a judged cross-module call")
     rng = random.Random(seed)
@@ -704,12 +736,20 @@ def run(tier, seed, build):
                 collect(fn)
                 got = normalise(r2[fn], by_caller.get(fn, []), below, ents)
                 # walk the cross-module edges below fn, parents first
-                failed, judged = [], 0
+                failed, failed_local, judged = [], [], 0
 
-                def walk(u, blocked):
+                def walk(u, blocked, above=None):
                     nonlocal judged
                     for c in ents[u].calls:
                         ed = next((e for e in sp.edges if e.v == c), None)
+                        if ed is None and not blocked and above is not None and sp.loc[c] != sp.target_mod:
+                            # a local call inside a followed module (caller and callee moved together)
+                            res.count(f"local-callee-in-followed-module:{ents[c].kind}")
+                            res.nontrivial.add(common.digest(["local", above.form, ents[c].kind]))
+                            if has_marks(ref, ents[c].marks) and not has_marks(got, ents[c].marks):
+                                failed_local.append((above, c))
+                                walk(c, True, above)
+                                continue
                         if ed is not None and not blocked:
                             judged += 1
                             res.nontrivial.add(common.digest([ed.form, ed.kind, ed.depth, ed.chain]))
@@ -720,9 +760,9 @@ def run(tier, seed, build):
                             if want_marks and not has_marks(got, ents[c].marks):
                                 failed.append(ed)
                                 res.count("skipped-below-a-failed-edge", sum(1 for _ in ents[c].calls))
-                                walk(c, True)
+                                walk(c, True, ed)
                                 continue
-                        walk(c, blocked)
+                        walk(c, blocked, ed if ed is not None else above)
 
                 walk(fn, False)
                 if got == ref:
@@ -734,6 +774,13 @@ def run(tier, seed, build):
                         res.count("verdict:" + sig)
                         res.violations.append({"signature": sig, "case": {"_edge": ed.meta(), **case}, "function": fn,
                                                "edge": ed.meta(), "reference": ref, "split": got})
+                if failed_local:
+                    for ed, c in failed_local:
+                        sig = f"import-changes-answer:{ed.form}:local-{ents[c].kind}-callee-of-followed-{ed.kind}-lost"
+                        res.count("verdict:" + sig)
+                        res.violations.append({"signature": sig, "case": {"_edge": ed.meta(), **case}, "function": fn,
+                                               "lost_callee": c, "reference": ref, "split": got})
+                if failed or failed_local:
                     continue
                 # everything was followed, yet the answer differs: classify
                 diff = {k: sorted(set(ref[k]) ^ set(got[k])) for k in ref if ref[k] != got[k]}
